@@ -1,5 +1,6 @@
 mod common;
 mod c01;
+mod c02;
 mod c04;
 mod c05;
 mod c07;
@@ -29,6 +30,7 @@ fn main() {
             let (prop, cases, verd) = (&args[2], &args[3], &args[4]);
             match prop.as_str() {
                 "C01" => c01::replay(cases, verd),
+                "C02" => c02::replay(cases, verd, &args[5]),
                 "C04" => c04::replay(cases, verd),
                 "C05" => c05::replay(cases, verd),
                 "C07" => c07::replay(cases, verd),
